@@ -1,7 +1,8 @@
 (* C03 - Unmarshal(Marshal(m)) reproduces m for every message. *)
 From Coq Require Import List ZArith Bool.
 From Pico Require Import Base.Res Base.Mach Wire.Wire Schema.Types Schema.Scalar Ref.Ref
-  Schema.ScalarProofs Enc.Enc Dec.Dec Dec.ReaderProofs Schema.Conv Schema.ConvProofs.
+  Schema.ScalarProofs Enc.Enc Dec.Dec Dec.ReaderProofs Dec.SafetyProofs Schema.Conv Schema.ConvProofs Schema.Gen Schema.Interp Schema.Norm Schema.EncSpec
+  Schema.TEnc Schema.TDec Schema.RoundTrip gen.Schemas.
 Import ListNotations.
 Open Scope Z_scope.
 
@@ -20,9 +21,31 @@ Proof. exact dur_roundtrip. Qed.
 Theorem C03_time : forall sec nsec, int64 sec -> 0 <= nsec < 1000000000 -> time_unix sec (s32 nsec) = (sec, nsec).
 Proof. exact time_roundtrip. Qed.
 
-(* PARTIAL. The message-level statement pico_unmarshal (pico_marshal m) = norm m for all
-   schemas/values/map orders is decided per run by the executable model (evaluated on every
-   generated message) in correspondence with the implementation. See DESIGN.md C03. *)
+(* the reference decoder reads the reference encoding back, for every schema of the feature set, every
+   well-typed value (msg/rt typing: Go ranges, at most one member per oneof, distinct map keys, captured bytes
+   as UnrecognizedFields stores them), any size and nesting depth *)
+Theorem C03_reference_round_trip : forall s g idx fs un m, rt_applies s = true -> nth_error s idx = Some m -> rt_ok g s idx fs un = true ->
+  bytes_ok (ref_encode g s idx fs un) /\
+  forall G, (length (ref_encode g s idx fs un) < G)%nat ->
+    ref_decode G s idx (ref_encode g s idx fs un) (zero_fields s m, []) = Some (norm_fields g s idx fs, un).
+Proof. exact ref_round_trip. Qed.
+
+(* C03 for generated code: Marshal succeeds and Unmarshal of its output into a fresh message returns no error
+   and the message itself - every scalar bit for bit, presence, oneof selection, repeated order, nested messages,
+   map contents, unrecognized bytes - up to the by-design normal form of Schema/Norm.v (a pointer to the zero
+   time.Time and zero/nil time elements are not written; a nil element of a repeated message comes back empty).
+   Composition of T_enc (Marshal = reference encoder), the reference round trip and T_dec (Unmarshal = reference decoder). *)
+Theorem C03_marshal_unmarshal : forall s progs fuel idx fs un m,
+  gen_all s = GOk progs -> wf_schema_enc s = true -> rt_applies s = true -> nth_error s idx = Some m ->
+  msg_ok fuel progs idx (Some (fs, un)) = true -> rt_ok fuel s idx fs un = true ->
+  exists data, pico_marshal fuel progs idx (fs, un) = Ok data /\
+               pico_unmarshal progs idx data (zero_fields s m, []) = (None, (norm_fields fuel s idx fs, un)).
+Proof. exact marshal_unmarshal. Qed.
+
+(* the schema-level side condition on the checked-in schemas (test.proto contains messages with custom types whose
+   codecs are user code) *)
+Example C03_applies_to_checked_in : map rt_applies checked_in_schemas = [false; true; true; true; true].
+Proof. vm_compute. reflexivity. Qed.
 
 Example C03_nonvacuous : scalar_ok KFloat (VInt 2139095041) = true /\ scalar_ok KSint64 (VInt (-9223372036854775808)) = true /\
   dec_tr KSint64 (enc_tr KSint64 (-9223372036854775808)) = -9223372036854775808.
@@ -32,3 +55,5 @@ Print Assumptions C03_scalar.
 Print Assumptions C03_transform.
 Print Assumptions C03_duration.
 Print Assumptions C03_time.
+Print Assumptions C03_reference_round_trip.
+Print Assumptions C03_marshal_unmarshal.
